@@ -47,7 +47,7 @@ var nonWord = regexp.MustCompile(`[^A-Za-z0-9]+`)
 // replayFindings writes one replay file per finding and runs them against the natively compiled
 // repository (go test with an overlay); verdicts are stored in the results.
 func replayFindings(P *Program, results []TaskResult, prop string) {
-	dir := filepath.Join(verifDir, "replays", prop)
+	dir := filepath.Join(envOr("GZV_REPLAY_DIR", filepath.Join(verifDir, "replays")), prop)
 	os.RemoveAll(dir)
 	byPkg := map[string][]string{}
 	type ref struct{ ri, fi int }
